@@ -494,7 +494,10 @@ def allowed_strategy(sup):
 def scenario_strategy():
     sup, names, known = tables()
     how = st.one_of(st.just('num'), st.integers(0, 5))
-    hosts = st.one_of(st.sampled_from(['localhost', '127.0.0.1']),
+    hosts = st.one_of(st.sampled_from(['localhost', '127.0.0.1', '::1',
+                                       '2001:db8::1', 'fe80::1234',
+                                       '::ffff:10.0.0.1', '2001:db8::',
+                                       'host-25565', '10.0.0.1.']),
                       st.text('abcdefghijklmnopqrstuvwxyz0123456789',
                               min_size=1, max_size=12).map(
                                   lambda s: s + '.example.org'))
@@ -557,6 +560,14 @@ def t_every_protocol(ctx, lo, hi):
                                 'reply': reply, 'entry': 'status',
                                 'username': 'u', 'hp': hp,
                                 'clock': ['steps_back', 'frozen'][p % 2]})
+        # bare IPv6 literals (and other hosts with ':' or digits at the end)
+        # as the address: the whole string is the host, the port is the port
+        for host6 in ('::1', '2001:db8::1', 'fe80::1234'):
+            scenario_case(ctx, {'allowed': [(other, 'num'), (p, 'num')],
+                                'default': None, 'reply': reply,
+                                'entry': ['connect', 'status'][p % 2],
+                                'username': 'u', 'host': host6,
+                                'port': [25565, 1, 65535][p % 3]})
         scenario_case(ctx, {'allowed': [(other, 'num')] +
                             ([(sup[5], 'num')] if sup[5] not in (p, other)
                              else [(sup[6], 'num')]),
